@@ -186,6 +186,23 @@ def fixed_lines(tt):
 # ----------------------------------------------------------------------------
 # flow steps
 
+def in_domain(req):
+    """inside the property's quantifier: start frames are frame numbers (0..2715647, also after `setstart`) and the
+    indication period is at least 1; what the generator does when started from a number that is no frame number is not
+    the property's business (it is still run and compared; differences are listed in the evidence)"""
+    t = req.split()
+    try:
+        if not (0 <= int(t[2]) < H and int(t[3]) >= 1):
+            return False
+        if t[0] == "clck.hist":
+            for op in t[6].split(";"):
+                if op.startswith("setstart:") and not 0 <= int(op.split(":")[1]) < H:
+                    return False
+    except (ValueError, IndexError):
+        return False
+    return True
+
+
 def correspond(run, corr):
     tt = int(getattr(run, "consts", {}).get("tTickNs", P)) if getattr(run, "consts", None) else P
     src = os.path.join(vf.TRX, "clck_gen.py")
@@ -205,7 +222,7 @@ def correspond(run, corr):
             reqs.append("clck.run 7 %d %d 1 0,1 %s" % (start, period, csv((ds * 20000)[:20000])))
     impl = harness(reqs)
     model = vf.run_driver(reqs)
-    corr.compare(reqs, impl, model)
+    corr.compare(reqs, impl, model, in_domain=in_domain)
     for r, a in zip(reqs, impl):
         tok = r.split()
         nt = a.count(" H") + a.startswith("H")
